@@ -11,6 +11,8 @@ import (
 	"strings"
 
 	"google.golang.org/protobuf/proto"
+	"google.golang.org/protobuf/reflect/protoreflect"
+	"google.golang.org/protobuf/types/known/fieldmaskpb"
 	"google.golang.org/protobuf/types/known/timestamppb"
 
 	"github.com/smart-core-os/sc-api/go/traits"
@@ -36,6 +38,33 @@ type page struct {
 type lister struct {
 	name  string
 	build func(ids []string) (list func(size int32, token string) (page, error), want []string)
+}
+
+// maskPath: when set, every List request that has a read_mask asks for this item field only. A read mask that
+// leaves out the item's key must not disturb paging (the page token is made from the key).
+var maskPath = map[string]string{
+	"smartcore.traits.ListModesRequest":        "title",
+	"smartcore.traits.ListPublicationsRequest": "media_type",
+	"smartcore.traits.ListConsumablesRequest":  "default_unit",
+	"smartcore.traits.ListInventoryRequest":    "dispensing",
+	"smartcore.traits.ListHailsRequest":        "note",
+	"smartcore.traits.ListChildrenRequest":     "traits",
+	"smartcore.traits.ListWasteRecordsRequest": "weight",
+}
+var useMask bool
+
+func masked(req proto.Message) proto.Message {
+	if !useMask {
+		return req
+	}
+	m := req.ProtoReflect()
+	fd := m.Descriptor().Fields().ByName("read_mask")
+	path, ok := maskPath[string(m.Descriptor().FullName())]
+	if fd == nil || !ok {
+		return req
+	}
+	m.Set(fd, protoreflect.ValueOfMessage((&fieldmaskpb.FieldMask{Paths: []string{path}}).ProtoReflect()))
+	return req
 }
 
 type seqReader struct{ n byte }
@@ -66,7 +95,7 @@ var listers = []lister{
 		}
 		s := electricpb.NewModelServer(m)
 		return func(size int32, tok string) (page, error) {
-			r, err := s.ListModes(ctx, &traits.ListModesRequest{Name: "n", PageSize: size, PageToken: tok})
+			r, err := s.ListModes(ctx, masked(&traits.ListModesRequest{Name: "n", PageSize: size, PageToken: tok}).(*traits.ListModesRequest))
 			if err != nil {
 				return page{}, err
 			}
@@ -90,7 +119,7 @@ var listers = []lister{
 		}
 		s := hailpb.NewModelServer(m)
 		return func(size int32, tok string) (page, error) {
-			r, err := s.ListHails(ctx, &traits.ListHailsRequest{Name: "n", PageSize: size, PageToken: tok})
+			r, err := s.ListHails(ctx, masked(&traits.ListHailsRequest{Name: "n", PageSize: size, PageToken: tok}).(*traits.ListHailsRequest))
 			if err != nil {
 				return page{}, err
 			}
@@ -109,7 +138,7 @@ var listers = []lister{
 		}
 		s := parentpb.NewModelServer(m)
 		return func(size int32, tok string) (page, error) {
-			r, err := s.ListChildren(ctx, &traits.ListChildrenRequest{Name: "n", PageSize: size, PageToken: tok})
+			r, err := s.ListChildren(ctx, masked(&traits.ListChildrenRequest{Name: "n", PageSize: size, PageToken: tok}).(*traits.ListChildrenRequest))
 			if err != nil {
 				return page{}, err
 			}
@@ -130,7 +159,7 @@ var listers = []lister{
 		}
 		s := publicationpb.NewModelServer(m)
 		return func(size int32, tok string) (page, error) {
-			r, err := s.ListPublications(ctx, &traits.ListPublicationsRequest{Name: "n", PageSize: size, PageToken: tok})
+			r, err := s.ListPublications(ctx, masked(&traits.ListPublicationsRequest{Name: "n", PageSize: size, PageToken: tok}).(*traits.ListPublicationsRequest))
 			if err != nil {
 				return page{}, err
 			}
@@ -151,7 +180,7 @@ var listers = []lister{
 		}
 		s := vendingpb.NewModelServer(m)
 		return func(size int32, tok string) (page, error) {
-			r, err := s.ListConsumables(ctx, &traits.ListConsumablesRequest{Name: "n", PageSize: size, PageToken: tok})
+			r, err := s.ListConsumables(ctx, masked(&traits.ListConsumablesRequest{Name: "n", PageSize: size, PageToken: tok}).(*traits.ListConsumablesRequest))
 			if err != nil {
 				return page{}, err
 			}
@@ -172,7 +201,7 @@ var listers = []lister{
 		}
 		s := vendingpb.NewModelServer(m)
 		return func(size int32, tok string) (page, error) {
-			r, err := s.ListInventory(ctx, &traits.ListInventoryRequest{Name: "n", PageSize: size, PageToken: tok})
+			r, err := s.ListInventory(ctx, masked(&traits.ListInventoryRequest{Name: "n", PageSize: size, PageToken: tok}).(*traits.ListInventoryRequest))
 			if err != nil {
 				return page{}, err
 			}
@@ -198,7 +227,7 @@ var listers = []lister{
 		}
 		s := wastepb.NewModelServer(m)
 		return func(size int32, tok string) (page, error) {
-			r, err := s.ListWasteRecords(ctx, &traits.ListWasteRecordsRequest{Name: "n", PageSize: size, PageToken: tok})
+			r, err := s.ListWasteRecords(ctx, masked(&traits.ListWasteRecordsRequest{Name: "n", PageSize: size, PageToken: tok}).(*traits.ListWasteRecordsRequest))
 			if err != nil {
 				return page{}, err
 			}
@@ -217,6 +246,7 @@ type pcase struct {
 	Ids    []string
 	Size   int32
 	Token  string // "": walk the chain from the start; else start from this (corrupted) token
+	Masked bool   // the requests carry a read mask that leaves out the items' key
 }
 
 func limit(size int32) int {
@@ -231,11 +261,16 @@ func limit(size int32) int {
 
 // walk follows the token chain; returns pages, or a violation.
 func walk(l lister, c pcase, fail func(k, m string), tokens map[string]bool) {
+	useMask = c.Masked
+	defer func() { useMask = false }()
 	list, want := l.build(c.Ids)
 	key := func(clause string) string {
 		ids := strings.Join(c.Ids, ",")
 		if len(c.Ids) > 8 {
 			ids = fmt.Sprintf("%d ids", len(c.Ids))
+		}
+		if c.Masked {
+			clause += "(read mask without the key)"
 		}
 		return fmt.Sprintf("%s %s size=%d ids=[%s] token=%q", clause, c.Lister, c.Size, ids, c.Token)
 	}
@@ -285,6 +320,13 @@ func walk(l lister, c pcase, fail func(k, m string), tokens map[string]bool) {
 			tokens[p.next] = true
 		}
 		tok = p.next
+	}
+	if c.Masked {
+		// the items carry no key: every item exactly once can only be told by the count
+		if c.Token == "" && len(all) != len(want) {
+			fail(key("enumeration"), fmt.Sprintf("pages hold %d items in all, the collection %d", len(all), len(want)))
+		}
+		return
 	}
 	if c.Token == "" {
 		if fmt.Sprint(all) != fmt.Sprint(want) {
@@ -370,6 +412,10 @@ func main() {
 			}
 			idSets = append(idSets, set)
 		}
+		// ids whose page tokens use every corner of the token encoding (base64 '+' '/' '=' positions at each
+		// alignment, multi-byte runes): with pages of 1 every id ends a page and becomes a token
+		awkward := []string{"?", "a?", "ab?", "~", "a~", "ab~", ">", "a>", "ab>", "Hot?", "~spare", "tea>milk", "ab¿", "k茶", "so🍵", "ÿÿÿ", "\x7f\x7f"}
+		idSets = append(idSets, awkward, awkward[:6], awkward[6:12], awkward[12:])
 		big := []int{49, 50, 51}
 		if s.Thorough {
 			big = append(big, 60, 999, 1000, 1001)
@@ -403,6 +449,14 @@ func main() {
 						tk = tokens
 					}
 					walk(l, c, func(k, m string) { s.Fail(k, m, c) }, tk)
+					if size > 0 && size <= 7 && len(ids) <= 60 {
+						// the same walk with a read mask that leaves the items' key out
+						cm := c
+						cm.Masked = true
+						s.Eval(1)
+						s.Trans(1)
+						walk(l, cm, func(k, m string) { s.Fail(k, m, cm) }, nil)
+					}
 					s.State(fmt.Sprintf("%s n=%d size=%d", l.name, len(ids), size))
 					if len(ids) > 1 && size > 0 && int(size) < len(ids) {
 						s.Distinct(fmt.Sprintf("%s %v size=%d", l.name, ids, size))
